@@ -182,6 +182,8 @@ class C03(PropCheck):
         edge = list(pm.edge_docs())
         earlier = list(pm.earlier_break_docs())
         spacers = list(pm.spacer_docs())        # (spacer-*) empty boxes whose margins straddle the page bottom
+        # (pagedeco-*) pages with a bottom padding / border of their own: the page bottom is the content-box bottom
+        pm_corr.add_docs(run, sec_edge, list(pm.page_decoration_docs()))
         pm_corr.add_docs(run, sec_edge, earlier + (spacers if run.thorough else run.rng.sample(spacers, 60))
                          + (edge if run.thorough else run.rng.sample(edge, 200)))
         sec_oof = run.section(
